@@ -325,6 +325,12 @@ func runC16(c *Check, w *World) {
 	} else {
 		c.Unk("R16.3", "otp", "algorithm-names", "the hash name table used by Algorithm.String was not found", "")
 	}
+	// Algorithm.String() is a lookup in that table
+	if sf := w.Func(OtpPath, "Algorithm.String"); sf != nil {
+		r := tb.Results(sf, nil, nil, 0)
+		want := fmt.Sprintf("lookup(gval(otp.algoStrMap); param(%s#0))", FuncName(sf))
+		c.Decide(len(r) == 1 && r[0].String() == want, "R16.3", FuncName(sf), "algorithm-name-lookup", "Algorithm.String() is the lookup in the name table", "Algorithm.String() returns "+clip(fmt.Sprint(r), 160)+", not the name table entry of its receiver", w.Pos(sf.Pos()))
+	}
 	// scheme and kinds compared by the parser
 	schemeOK, kindsRead := false, map[string]bool{}
 	EachInstr(parse, func(in ssa.Instruction) {
